@@ -28,15 +28,17 @@ CONSTANTS Kinds,        \* font kinds explored: subset of FontKinds below
           NameMemo,     \* TRUE: the library remembers that it already looked for the name table (repair of F6)
           Emit
 
-FontKinds == {"good", "noname", "badlabel", "badglyph", "compressed", "awami", "badsilf", "nocmap", "nogloc", "badlz4", "badlz4s", "hiddenfeat", "name1", "badfeat", "badfeat2", "badsill"}
+FontKinds == {"good", "noname", "badlabel", "badglyph", "compressed", "awami", "badsilf", "nocmap", "nogloc", "badlz4", "badlz4s", "hiddenfeat", "name1", "badfeat", "badfeat2", "badsill", "underflow"}
 PreloadGlyphs(o) == (o \div 2) % 2 = 1
 CacheCmap(o)     == (o \div 4) % 2 = 1
 PreloadAll(o)    == PreloadGlyphs(o) /\ CacheCmap(o)
 \* a font with one unloadable glyph is refused only when all glyphs are loaded up front
-Loads(k, o) == k \in {"good", "noname", "badlabel", "compressed", "awami", "hiddenfeat", "name1"} \/ (k = "badglyph" /\ ~PreloadGlyphs(o))
+Loads(k, o) == k \in {"good", "noname", "badlabel", "compressed", "awami", "hiddenfeat", "name1", "underflow"} \/ (k = "badglyph" /\ ~PreloadGlyphs(o))
 \* "name1": the name table is of format 1, which the library does not read (TtfUtil::CheckTable): fetched, given back,
 \* and from then on as good as absent - on every kind of face (staged as a file by the harness)
-OnDisk(k) == k \in {"good", "compressed", "awami", "name1"}
+\* "underflow": tests/fonts/underflow.ttf - loads, but some texts make a rule program fail at run time: gr_make_seg
+\* returns NULL for them (a result like any other: same every time, nothing left allocated)
+OnDisk(k) == k \in {"good", "compressed", "awami", "name1", "underflow"}
 HasName(k) == k # "noname"
 
 \* tables the glyph loader keeps borrowed while it is alive (a compressed Glat is replaced by library memory)
@@ -88,7 +90,8 @@ JustifySeg ==  /\ "justify" \in ClientOps /\ phase = "live" /\ Budget /\ nsegs >
                /\ UNCHANGED <<phase, opts, kind, src, held, nameDone, nfonts, nsegs, nfvals, afterMake>>
 DestroySeg ==  /\ "destroy_seg" \in ClientOps /\ phase = "live" /\ Budget /\ nsegs > 0 /\ nsegs' = nsegs - 1 /\ hist' = Append(hist, Op("destroy_seg", 0))
                /\ UNCHANGED <<phase, opts, kind, src, held, nameDone, nfonts, nfvals, afterMake>>
-FeatVal ==     /\ "featval" \in ClientOps /\ phase = "live" /\ Budget /\ nfvals < 2 /\ nfvals' = nfvals + 1 /\ hist' = Append(hist, Op("featval", 0))
+\* gr_face_featureval_for_lang(face, 0) (l = 0) or for the first language the font lists (l = 1): a fresh client-owned copy
+FeatVal(l) ==  /\ "featval" \in ClientOps /\ phase = "live" /\ Budget /\ nfvals < 2 /\ nfvals' = nfvals + 1 /\ hist' = Append(hist, Op("featval", l))
                /\ UNCHANGED <<phase, opts, kind, src, held, nameDone, nfonts, nsegs, afterMake>>
 DestroyFval == /\ "destroy_fval" \in ClientOps /\ phase = "live" /\ Budget /\ nfvals > 0 /\ nfvals' = nfvals - 1 /\ hist' = Append(hist, Op("destroy_fval", 0))
                /\ UNCHANGED <<phase, opts, kind, src, held, nameDone, nfonts, nsegs, afterMake>>
@@ -106,7 +109,8 @@ DestroyFace ==
   /\ UNCHANGED <<opts, kind, src, nameDone, nfonts, nsegs, nfvals, afterMake>>
 
 Next == \/ \E o \in 0..7, k \in Kinds, sr \in Srcs : MakeFace(o, k, sr)
-        \/ LabelQuery \/ FaceQuery \/ FeatVal \/ DestroyFval
+        \/ LabelQuery \/ FaceQuery \/ DestroyFval
+        \/ \E l \in {0, 1} : FeatVal(l)
         \/ \E p \in {0, 12} : MakeFont(p)
         \/ DestroyFont
         \/ \E t \in Texts : MakeSeg(t) \/ ShapeOnce(t)
